@@ -241,6 +241,14 @@ func (o *ownedRun) sweep(state string, sess string, destructive bool) {
 		o.do(state, "GET", base+p, navHdr, ck(nil))
 		o.do(state, "POST", base+p, nil, ck(nil))
 	}
+	// other SPELLINGS of owned paths that still lie in the owned subtree as written (duplicate slashes, dot segments, trailing
+	// slash, ";params" inside <prefix>/oauth2): whatever the router makes of them, they are answered by wonderwall itself
+	for _, p := range []string{"/oauth2//session", "/oauth2/./session", "/oauth2/session/.", "/oauth2/session;x=y", "/oauth2/login/", "/oauth2//login",
+		"/oauth2/x/../login", "/oauth2/logout/", "/oauth2/logout/./local", "/oauth2/session//refresh"} {
+		o.do(state+"+spelling", "GET", base+p, navHdr, ck(nil))
+		o.do(state+"+spelling+retries-exhausted", "GET", base+p, xhrHdr, ck(terminal))
+		o.do(state+"+spelling", "POST", base+p, nil, ck(terminal))
+	}
 	// other ways of writing the request line for an owned path (chi routes on the path): absolute-form naming this host or a
 	// foreign one, scheme without / with empty authority; with and without exhausted retries (error page / retry redirect)
 	for _, p := range []string{"/oauth2/session", "/oauth2/login", "/oauth2/login?redirect=/x", "/oauth2/logout", "/oauth2/callback?code=bad&state=bad",
